@@ -139,3 +139,40 @@ package totp2fa
 //@   -- with that error - it is not a reason to fall back to the login parked in the session
 //@   ensures[C18] load_error_outcome: each Store.Load(_) -> (_, ?e) => (e != nil && e != ErrUserNotFound) ==>
 //@       (result == e && !emits Sess.Put(_, _) && !emits Sess.Del(_) && !emits Store.Save(_) && !emits Respond(_, _, _) && !emits Redirect(_) && !(after Store.Load(_)))
+//
+//@ -- The pages that are only shown (GET) --------------------------------------------------
+//@ func (*TOTP).GetSetup
+//@   property C13
+//@   -- C13 (round 11 coverage review): a page that is only shown changes nothing that counts - no
+//@   -- record is saved, no session key is written, no cookie set, no text message sent (a GET is
+//@   -- what a cross-site link or image can make the owner's browser do)
+//@   ensures[C13] get_changes_nothing: !emits Store.Save(_) && !emits Sess.Put(_, _) && !emits Cook.Put(_, _) && !emits SMS.Send(_, _) && !emits Mail.Send(_)
+//@
+//@ func (*TOTP).GetConfirm
+//@   property C13
+//@   -- C13 (round 11 coverage review): a page that is only shown changes nothing that counts - no
+//@   -- record is saved, no session key is written, no cookie set, no text message sent (a GET is
+//@   -- what a cross-site link or image can make the owner's browser do)
+//@   ensures[C13] get_changes_nothing: !emits Store.Save(_) && !emits Sess.Put(_, _) && !emits Cook.Put(_, _) && !emits SMS.Send(_, _) && !emits Mail.Send(_)
+//@
+//@ func (*TOTP).GetRemove
+//@   property C13
+//@   -- C13 (round 11 coverage review): a page that is only shown changes nothing that counts - no
+//@   -- record is saved, no session key is written, no cookie set, no text message sent (a GET is
+//@   -- what a cross-site link or image can make the owner's browser do)
+//@   ensures[C13] get_changes_nothing: !emits Store.Save(_) && !emits Sess.Put(_, _) && !emits Cook.Put(_, _) && !emits SMS.Send(_, _) && !emits Mail.Send(_)
+//@
+//@ func (*TOTP).GetValidate
+//@   property C13
+//@   -- C13 (round 11 coverage review): a page that is only shown changes nothing that counts - no
+//@   -- record is saved, no session key is written, no cookie set, no text message sent (a GET is
+//@   -- what a cross-site link or image can make the owner's browser do)
+//@   ensures[C13] get_changes_nothing: !emits Store.Save(_) && !emits Sess.Put(_, _) && !emits Cook.Put(_, _) && !emits SMS.Send(_, _) && !emits Mail.Send(_)
+//@
+//@ func (*TOTP).GetQRCode
+//@   property C13
+//@   -- C13 (round 11 coverage review): a page that is only shown changes nothing that counts - no
+//@   -- record is saved, no session key is written, no cookie set, no text message sent (a GET is
+//@   -- what a cross-site link or image can make the owner's browser do)
+//@   ensures[C13] get_changes_nothing: !emits Store.Save(_) && !emits Sess.Put(_, _) && !emits Cook.Put(_, _) && !emits SMS.Send(_, _) && !emits Mail.Send(_)
+//@
